@@ -233,6 +233,9 @@ def facts_of(R):
     # the pool loop clears busy only under the busy lock and only when next_job returned None
     F['busy_cleared_only_on_none'] = bool(re.search(r'let\s+mut\s+busy\s*=\s*also_busy\.lock\(\)[^;]*;\s*let\s+job_data\s*=\s*next_job\(\)\s*;\s*if\s+job_data\.is_none\(\)\s*\{\s*\*busy\s*=\s*false\s*;\s*\}\s*job_data', sd)) and count(r'\*busy\s*=\s*false', sd) == 1
     F['dormant_sets_busy_before_run'] = bool(re.search(r'if\s*!\*busy\s*\{.*?\*busy\s*=\s*true\s*;\s*thread\.run\(', sd, flags=re.S))
+    # a finished (panicked) pool thread is reaped whatever its busy flag says - it died with the flag set
+    rf = find_fn(core, 'remove_finished_threads', 'fact:reap')
+    F['reap_tests_only_is_finished'] = bool(re.search(r'let\s+\(_,\s*thread\)\s*=\s*&threads\[thread_num\]\s*;\s*if\s+thread\.is_finished\(\)\s*\{\s*let\s+\(is_busy,\s*dead_thread\)\s*=\s*threads\.remove\(thread_num\)', rf)) and count(r'is_finished\(\)', rf) == 1
     F['dormant_reaps_first'] = bool(re.match(r'\{\s*self\.remove_finished_threads\(\)\s*;', sd))
 
     sp = find_fn(core, 'spawn_thread_if_less_than_maximum', 'fact:spawn')
@@ -291,6 +294,9 @@ def facts_of(R):
     rqf = find_fn(core, 'reschedule_queue', 'fact:resched')
     F['resched_notifies_waiters'] = bool(re.search(r'wake_blocked\.iter_mut\(\).*?notify_one\(\).*?match\s+core\.state', rqf, flags=re.S))
     F['resched_pushes_back_then_schedules'] = bool(re.search(r'if\s+reschedule\s*\{\s*self\.schedule\.lock\(\)[^;]*\.push_back\(queue\.clone\(\)\)\s*;\s*self\.schedule_thread\(core\)\s*;', rqf))
+    # the spawn decision reads the maximum (its own lock, released at once) BEFORE it takes the threads lock: a maximum lowered in between is not seen
+    sp = find_fn(core, 'spawn_thread_if_less_than_maximum', 'fact:spawn')
+    F['spawn_reads_max_before_threads_lock'] = bool(re.search(r'let\s+max_threads\s*=\s*\{\s*\*self\.max_threads\.lock\(\)[^;]*\}\s*;\s*let\s+mut\s+threads\s*=\s*self\.threads\.lock\(\)', sp))
     nt = find_fn(core, 'next_to_run', 'fact:next')
     F['next_pops_front'] = count(r'schedule\.pop_front\(\)', nt) == 1
     cl = find_fn(core, 'claim_pending_queue', 'fact:claim')
@@ -314,6 +320,8 @@ def facts_of(R):
     if not m: raise TranslateError('fact:syncfuture_fields', "struct SyncFuture not found")
     fields = re.findall(r'^\s*(\w+)\s*:', m.group(1), flags=re.M)
     F['syncfuture_field_order'] = fields == ['state', 'scheduler_future', 'task_finished']
+    # ... and SyncFuture has no Drop impl of its own (a Drop::drop would run BEFORE the fields are dropped, i.e. before the user future is destroyed)
+    F['syncfuture_no_drop_impl'] = count(r'\bDrop\s+for\s+SyncFuture\b', syf) == 0
     fs = find_fn(ds, 'future_sync', 'fact:future_sync', impl='Scheduler')
     F['future_sync_slot_job'] = bool(re.search(r'queue_ready_send\.send\(\(\)\)\.ok\(\)\s*;\s*done_recv\.await\.ok\(\)\s*;\s*send\.signal\(\(\)\)\s*;', fs)) and bool(re.search(r'self\.schedule_job_desync\(queue,\s*Box::new\(signal_job\)\)\s*;\s*SyncFuture::new', fs))
     # dropping a SchedulerFuture does nothing to the queue (the model has no step for it): the Drop impl has an empty body
